@@ -322,6 +322,160 @@ fn client_part(rep: &mut Report) {
     rep.phase("client paths", st, json!({"paths": paths.len(), "depth": depth}));
 }
 
+// ---------------------------------------------------------------------------------------------
+// the RTU server between two attempts to open its port
+// ---------------------------------------------------------------------------------------------
+
+struct NoPoints;
+impl rodbus::server::RequestHandler for NoPoints {}
+
+struct RecordingRetry {
+    t0: tokio::time::Instant,
+    attempts: std::sync::Arc<std::sync::Mutex<Vec<u64>>>,
+    delay_ms: u64,
+}
+
+impl rodbus::RetryStrategy for RecordingRetry {
+    fn reset(&mut self) {}
+    fn after_failed_connect(&mut self) -> std::time::Duration {
+        self.attempts.lock().unwrap().push(self.t0.elapsed().as_millis() as u64);
+        std::time::Duration::from_millis(self.delay_ms)
+    }
+    fn after_disconnect(&mut self) -> std::time::Duration {
+        self.attempts.lock().unwrap().push(1_000_000 + self.t0.elapsed().as_millis() as u64);
+        std::time::Duration::from_millis(self.delay_ms)
+    }
+}
+
+/// The production RTU server task on a port that cannot be opened, virtual time: the instants of
+/// its open attempts (observed through the retry strategy it consults after each failure) with
+/// `set_decode_level` calls at the given instants (`before_timers`: the call is made before the
+/// task is polled at that instant, so a call and an expiring delay are seen in the same poll).
+pub fn rtu_reopen_attempts(changes: &[u64], before_timers: bool, burst: usize) -> Result<Vec<u64>, String> {
+    use rodbus::server::*;
+    use rodbus::*;
+    const TICK: u64 = 10;
+    const HORIZON: u64 = 450;
+    let attempts = std::sync::Arc::new(std::sync::Mutex::new(vec![]));
+    let retry = RecordingRetry { t0: tokio::time::Instant::now(), attempts: attempts.clone(), delay_ms: 100 };
+    let map = ServerHandlerMap::single(UnitId::new(1), NoPoints.wrap());
+    let (handle, task) = create_rtu_server_task("/nonexistent/verif-no-such-port", SerialSettings::default(), Box::new(retry), map, DecodeLevel::nothing());
+    let mut server = Task::new(task.run());
+    let mut handle = Some(handle);
+    let mut toggle = false;
+    crate::sim::run_until_quiescent(&mut [&mut server], POLL_BUDGET).ok_or("busy loop")?;
+    let mut now = 0u64;
+    loop {
+        let mut change = |server: &mut Task<_>, handle: &mut Option<ServerHandle>, toggle: &mut bool| -> Result<(), String> {
+            for _ in 0..burst {
+                *toggle = !*toggle;
+                let level = decode_level(if *toggle { HIGH } else { LOW });
+                let mut hd = handle.take().unwrap();
+                let mut t = Task::new(async move {
+                    let r = hd.set_decode_level(level).await;
+                    (hd, r.is_ok())
+                });
+                crate::sim::run_until_quiescent(&mut [&mut t, server], POLL_BUDGET).ok_or("busy loop")?;
+                match t.output.take() {
+                    Some((hd, true)) => *handle = Some(hd),
+                    Some((_, false)) => return Err("set_decode_level reported Shutdown".into()),
+                    None => return Err("set_decode_level did not complete".into()),
+                }
+            }
+            Ok(())
+        };
+        if before_timers && changes.contains(&now) {
+            change(&mut server, &mut handle, &mut toggle)?;
+        }
+        crate::sim::run_until_quiescent(&mut [&mut server], POLL_BUDGET).ok_or("busy loop")?;
+        if !before_timers && changes.contains(&now) {
+            change(&mut server, &mut handle, &mut toggle)?;
+        }
+        if let Some(p) = &server.panicked {
+            return Err(format!("panic: {p}"));
+        }
+        if server.is_done() {
+            return Err("the server task ended".into());
+        }
+        if now >= HORIZON {
+            break;
+        }
+        crate::sim::advance(TICK);
+        now += TICK;
+    }
+    drop(handle);
+    crate::sim::run_until_quiescent(&mut [&mut server], POLL_BUDGET).ok_or("busy loop")?;
+    if !server.is_done() {
+        return Err("the server task did not end after its handle was dropped".into());
+    }
+    let v = attempts.lock().unwrap().clone();
+    Ok(v)
+}
+
+fn rtu_reopen_cases(thorough: bool) -> Vec<(Vec<u64>, bool, usize)> {
+    let ticks: Vec<u64> = (0..=25).map(|k| k * 10).collect();
+    let mut sets: Vec<Vec<u64>> = vec![];
+    for a in &ticks {
+        sets.push(vec![*a]);
+        for b in &ticks {
+            if b > a {
+                sets.push(vec![*a, *b]);
+                if thorough {
+                    for c in &ticks {
+                        if c > b && *c <= 150 {
+                            sets.push(vec![*a, *b, *c]);
+                        }
+                    }
+                }
+            }
+        }
+    }
+    // a steady poller
+    sets.push(ticks.clone());
+    let mut out = vec![];
+    for s in sets {
+        for before in [false, true] {
+            for burst in [1usize, 9] {
+                if burst == 9 && s.len() > 2 {
+                    continue;
+                }
+                out.push((s.clone(), before, burst));
+            }
+        }
+    }
+    out
+}
+
+fn rtu_reopen_phase(rep: &mut Report) {
+    let cases = rtu_reopen_cases(rep.thorough());
+    let st = parallel(cases.len(), |i, st| {
+        let (changes, before, burst) = &cases[i];
+        let base = rtu_reopen_attempts(&[], false, 1);
+        let got = rtu_reopen_attempts(changes, *before, *burst);
+        st.evaluations += 1;
+        st.traces += 1;
+        st.transitions += 46;
+        st.class("rtu-server-reopen-schedule");
+        st.observe(&(changes.len(), before, burst, format!("{got:?}")));
+        let expected: Vec<u64> = vec![0, 100, 200, 300, 400];
+        let problem = match (&base, &got) {
+            (Ok(b), _) if *b != expected => Some(("MACHINERY:rtu-reopen-baseline".to_string(), format!("without any level change the attempts were at {b:?} ms"))),
+            (Err(e), _) => Some(("MACHINERY:rtu-reopen-baseline".to_string(), e.clone())),
+            (Ok(b), Ok(g)) if g != b => Some(("decode-changes-server-behaviour:rtu-reopen-schedule".to_string(), format!("attempts to open the port at {g:?} ms, without the level changes at {b:?} ms"))),
+            (Ok(_), Err(e)) => Some(("decode-changes-server-behaviour:rtu-reopen".to_string(), e.clone())),
+            _ => None,
+        };
+        if let Some((sig, desc)) = problem {
+            st.violation(Violation {
+                signature: sig,
+                summary: format!("RTU server on a port that cannot be opened (retry delay 100 ms), set_decode_level x{burst} at {changes:?} ms ({}): {desc}", if *before { "seen in the same poll as timers expiring at that instant" } else { "after the task has run at that instant" }),
+                replay: json!({"kind": "c20-rtu-reopen", "changes": changes, "before": before, "burst": burst}),
+            });
+        }
+    });
+    rep.phase("production RTU server task between attempts to open its port: decode-level changes at every instant", st, json!({"cases": cases.len(), "tick_ms": 10, "retry_delay_ms": 100, "horizon_ms": 450}));
+}
+
 pub fn check_c20(tier: &str) -> i32 {
     let mut rep = Report::new(
         "C20",
@@ -332,9 +486,10 @@ pub fn check_c20(tier: &str) -> i32 {
     rep.bounds = json!({"server_depth": if rep.thorough() { 3 } else { 2 }, "client_depth": if rep.thorough() { 7 } else { 6 }});
     server_part(&mut rep);
     client_part(&mut rep);
+    rtu_reopen_phase(&mut rep);
     let st = crate::checks::sessions::decode_burst_phase();
     rep.phase("production TCP / TLS server task: single decode-level changes and bursts of 12 at every position of connect / request scripts", st, json!({}));
-    for c in ["server-task:decode-burst", "decode-output-observed", "server-sequence-low-vs-high", "server-sequence-level-change", "server-stream-low-vs-high", "server-stream-level-change-between-chunks", "client-path-low-vs-high", "client-path-level-change"] {
+    for c in ["rtu-server-reopen-schedule", "server-task:decode-burst", "decode-output-observed", "server-sequence-low-vs-high", "server-sequence-level-change", "server-stream-low-vs-high", "server-stream-level-change-between-chunks", "client-path-low-vs-high", "client-path-level-change"] {
         rep.require_class(c);
     }
     rep.finish()
@@ -350,6 +505,16 @@ pub fn replay_c20(v: &serde_json::Value) -> Vec<(String, String)> {
         let to: (u8, u8, u8) = serde_json::from_value(v["to"].clone()).unwrap();
         let exp = server_expect(&cfg, &stream);
         return run_server_stream_inject(&cfg, &stream, &cuts, &exp, false, Tail::None, Some((k, to)));
+    }
+    if v["kind"] == "c20-rtu-reopen" {
+        crate::sim::enter_thread_runtime();
+        let changes: Vec<u64> = serde_json::from_value(v["changes"].clone()).unwrap();
+        let base = rtu_reopen_attempts(&[], false, 1);
+        let got = rtu_reopen_attempts(&changes, v["before"].as_bool().unwrap(), v["burst"].as_u64().unwrap() as usize);
+        if base != got {
+            out.push(("decode-changes-server-behaviour:rtu-reopen-schedule".into(), format!("{got:?} vs {base:?}")));
+        }
+        return out;
     }
     if v["kind"] == "c20-client" {
         let events: Vec<Ev> = serde_json::from_value(v["events"].clone()).unwrap();
